@@ -1,15 +1,8 @@
 /-
-C18, T1 bridge: the effects of the hand-written models (Model/FiberSync*.lean) on the fields of the primitives are the
-functions that vlib/x_fibersync.py regenerates from the C++ method bodies on every check run
-(Extracted/FiberSync.lean).  `core` projects a model state to the fields of the C++ object.
-
-The bridge theorems themselves are in Props/C18.lean (namespace `Yaclib.Props.C18.Bridge`).  Each of them says: running the extracted method (from its entry, or from the return of its wait) in the projection
-of a model state ends exactly as the model's `Step` rule says — same new field values, same return value, same
-notification, same queue to wait on.  The defects are visible in the statements:
-  D4  `bridge_Rm_unlock`: no notification;
-  D5  `bridge_Sm_timed`: the exclusive request ends in the *shared* helper (`sharedHelperX`);
-  D6  the `…_resume` theorems of everything but `Mutex::lock` take the lock whatever the fields say;
-  D7  `bridge_Sm_lock_shared`: waits on "_exclusive_queue".
+C18, T1 bridge: `core` projects a state of the hand-written models (Model/FiberSync*.lean) to the fields of the C++
+object, so that the models' effects can be compared with the functions vlib/x_fibersync.py regenerates from the C++
+method bodies on every check run (Extracted/FiberSync.lean).  The bridge theorems are in Props/C18.lean
+(namespace `Yaclib.Props.C18.Bridge`).
 -/
 import YaclibModel.Extracted.FiberSync
 import YaclibModel.Model.FiberSync
@@ -27,13 +20,12 @@ end Mx
 
 namespace Rm
 def core (s : State) : RecursiveMutex := ⟨s.owner, s.count⟩
+
+@[simp] theorem core_notifyR (s : State) (w : Option Fid) : core (notifyR s w) = core s := by cases w <;> rfl
 end Rm
 
 namespace Sm
 def core (s : State) : SharedMutex := ⟨s.cnt, s.occ, s.excl⟩
-
-/-- the queue-emptiness oracle of `unlock` as the model sees it -/
-def qempty (s : State) (q : String) : Bool := if q = "_shared_queue" then s.sq.isEmpty else s.eq.isEmpty
 
 @[simp] theorem core_notifyE (s : State) (w : Option Fid) : core (notifyE s w) = core s := by cases w <;> rfl
 
